@@ -147,6 +147,39 @@ pub struct Info {
     pub steps: u64,
     pub counts: Vec<String>,
     pub nontrivial: bool,
+    /// digest of the schedule: the sequence of (operation kind, actor(s), loader) without documents, values, flags
+    pub schedule: u64,
+}
+
+pub fn schedule_signature(case: &Case) -> u64 {
+    let mut h = Fnv::new();
+    for op in &case.ops {
+        match op {
+            Op::Store { actor, over, .. } => h.u64(1).u64(*actor as u64).u64(over.is_some() as u64),
+            Op::Load { actor, loader, .. } => h.u64(2).u64(*actor as u64).u64(*loader as u64),
+            Op::BadLoad { actor, loader, damage, .. } => h.u64(3).u64(*actor as u64).u64(*loader as u64).str(match damage {
+                Damage::WrongType(_) => "w",
+                Damage::HeaderFlip { .. } => "h",
+                Damage::ReversedCookie => "r",
+                Damage::Tag { .. } => "t",
+                Damage::Truncate(_) => "c",
+                Damage::Empty => "e",
+                Damage::Intact => "i",
+                Damage::Directory => "d",
+                Damage::Missing => "m",
+            }),
+            Op::SysFaultLoad { actor, loader, fault, .. } => h.u64(4).u64(*actor as u64).u64(*loader as u64).str(&format!("{:?}", fault)),
+            Op::Verify { actor, .. } => h.u64(5).u64(*actor as u64),
+            Op::Move { actor, .. } => h.u64(6).u64(*actor as u64),
+            Op::SharedRead { a1, a2, .. } => h.u64(7).u64(*a1 as u64).u64(*a2 as u64),
+            Op::Unlink { .. } => h.u64(8),
+            Op::Rewrite { .. } => h.u64(9),
+            Op::Drop { actor, .. } => h.u64(10).u64(*actor as u64),
+            Op::Escape { actor, .. } => h.u64(11).u64(*actor as u64),
+            Op::ReadEscaped { actor, .. } => h.u64(12).u64(*actor as u64),
+        };
+    }
+    h.get()
 }
 
 thread_local! {
@@ -1021,7 +1054,7 @@ pub fn execute(cfg: &WorldCfg, case: &Case) -> Result<Info, Violation> {
     }
     match viol {
         Some(v) => Err(v),
-        None => Ok(Info { digest, steps, counts, nontrivial }),
+        None => Ok(Info { digest, steps, counts, nontrivial, schedule: schedule_signature(case) }),
     }
 }
 
